@@ -30,7 +30,8 @@ NAMES = ["r", "q", "para", "literalLayout", "markup", "objectName", "attributeNa
 VALUES = ["x", " x ", "x  y", "x\n\ty", "\xa0x\xa0", "x\xa0\xa0y", "   ", "\n  ", "\xa0", " \xa0\n", "a b\tc\n d",
           # source text with escaped markup characters (values are written into the document verbatim)
           "a &lt; b  &amp; c", "&amp;lt;b&amp;gt;", "&gt;\xa0&quot;\xa0\xa0&apos;",
-          "m\u00b2 \ufb01eld\xa0\uff1c \u00b4 \u2460"]
+          "m\u00b2 \ufb01eld\xa0\uff1c \u00b4 \u2460",
+          "Counts where <![CDATA[ n < 5 & n > 1 ]]> per plot", "<![CDATA[a]]><![CDATA[ b]]> c"]
 XSI = "http://www.w3.org/2001/XMLSchema-instance"
 
 
@@ -93,7 +94,8 @@ def features(d, path):
         out.append(["text", p, v])
         if path:
             out.append(["tail", p, v])
-        out.append(["attr", p, ["k", v]])
+        if "<![CDATA[" not in v:
+            out.append(["attr", p, ["k", v]])
     out.append(["attr", p, ["xsi:t", " a  b "]])
     out.append(["attr", p, ["second", "v"]])
     return out
